@@ -445,6 +445,20 @@ func (s *sim) settle() {
 	}
 }
 
+// pump handles every event that is available right now.
+func (s *sim) pump() {
+	for {
+		select {
+		case ev := <-s.ev:
+			s.handle(ev)
+		case e := <-s.r.entered:
+			s.handle(event{kind: "entry", e: e})
+		default:
+			return
+		}
+	}
+}
+
 // lostWakeupCheck: the statement's explicit guarantee — a producer is never left blocked while the
 // queue is empty. Called when an expected event did not arrive within the (generous, initial) settle
 // wait; decided on the goroutine dump, not on the wait itself.
@@ -492,6 +506,7 @@ func (s *sim) checkGauges(step string) {
 		// arrives within microseconds; a loaded machine must not turn the poll into a verdict)
 		dl := time.Now().Add(15 * time.Second)
 		for g != s.size && time.Now().Before(dl) {
+			s.pump() // an event that was late for the step's settle wait must still update the model
 			time.Sleep(20 * time.Microsecond)
 			g, _ = s.r.size()
 		}
